@@ -36,9 +36,13 @@ type c11Step struct {
 	owner string // frame: "call" or "sub" or "none"
 	mtype uint8  // frame: message type
 	frags []int  // frame: fragment sizes, 0 = rest
+	psize int    // frame: size of its payload (0: the two or three bytes of c11Frame), see c11large.go
 }
 
 func (s c11Step) String() string {
+	if s.kind == "frame" && s.psize > 0 {
+		return fmt.Sprintf("frame(%s%d,t%d,payload=%d,%v)", s.owner, s.idx, s.mtype, s.psize, s.frags)
+	}
 	if s.kind == "frame" {
 		return fmt.Sprintf("frame(%s%d,t%d,%v)", s.owner, s.idx, s.mtype, s.frags)
 	}
@@ -225,6 +229,11 @@ func runC11(res *hx.Result, rng *hx.Rng, tier string, outdir string) {
 		}
 		jobs = append(jobs, c11ManyJobs(rng, sc, npos)...)
 	}
+	// the loss strictly inside a large incoming frame (c11large.go)
+	large := c11LargeScenarios(tier)
+	for si, sc := range large {
+		jobs = append(jobs, c11LargeJobs(sc, si)...)
+	}
 	if tier == "thorough" { // every run twice more: the goroutines after the loss are scheduled by the runtime
 		jobs = append(append(append([]c11Job{}, jobs...), jobs...), jobs...)
 	}
@@ -290,7 +299,7 @@ func runC11(res *hx.Result, rng *hx.Rng, tier string, outdir string) {
 			res.Fail("c11-oracle", fmt.Sprintf("%s: %s | forced labels: %s", desc, f, strings.Join(o.labels, "; ")))
 		}
 		term := c11CaseTerm(j.sc, o)
-		if (j.wrap != "" || j.fam == 2) && seen[term] {
+		if (j.wrap != "" || j.fam == 2 || j.dedup) && seen[term] {
 			same++ // forced labels and observations identical to a case already written: nothing new for the model
 			continue
 		}
@@ -313,6 +322,7 @@ func runC11(res *hx.Result, rng *hx.Rng, tier string, outdir string) {
 		}
 		c11RealPipe(res, hang, reps)
 		c11RealKinds(res, hang, tier)
+		c11OwnConnections(res, hang, tier)
 		c11Sessions(res, rng, hang, tier)
 	}
 	res.Exhaustive = skipped == 0
@@ -321,7 +331,7 @@ func runC11(res *hx.Result, rng *hx.Rng, tier string, outdir string) {
 	}
 	res.Notes = append(res.Notes,
 		fmt.Sprintf("%d of the runs (through net.ConnStream, or with many handlers) gave a case term (forced labels + observations) already compared with the model and were not written again", same),
-		fmt.Sprintf("%d scenarios, %d runs, %d stream operations in total; fault injected at every script position, inside every Write and after every fragment of every fragmented frame", len(scs)+len(blocked)+len(many), len(jobs), ops),
+		fmt.Sprintf("%d scenarios, %d runs, %d stream operations in total; fault injected at every script position, inside every Write and after every fragment of every fragmented frame", len(scs)+len(blocked)+len(many)+len(large), len(jobs), ops),
 		fmt.Sprintf("wall-clock bound asserted by the oracles: every wait %v; largest latency from loss (or release of the held Close) to a call's return: %v", hang, maxLat),
 		"no defect switch is defined for C11: the pinned code showed no violation")
 }
